@@ -37,6 +37,10 @@ def closure_inst(F, clo):
 
 def run(ctx):
     F = ctx.F()
+    global T2, T1
+    from . import tagtables as _TTk
+    T2 = _TTk.conv_key(F, "t2")
+    T1 = _TTk.conv_key(F, "t1")
     num_of_variant = {v: k for k, v in S.MBI_TAG_TYPES.items()}
     adts = {}
     # ---------------------------------------------------------------- G5
